@@ -574,9 +574,111 @@ def special_cases(acc):
                     f'another process without default)', case))
 
 
+def special_cases_2(acc):
+    """(c) several processes declare the same child variable of one glob
+    store, only one of them with a default: children named in the initial
+    state get that default whatever the wiring order; (d) a store built
+    AGAIN from the same process objects after a declared default changed
+    holds the new default."""
+    # (c)
+    for nested in (False, True):
+        with_d = {'_default': 1.5, '_emit': True}
+        without = {'_emit': True}
+        sub = (lambda leaf: {'stats': {'age': dict(leaf)}}) if nested \
+            else (lambda leaf: {'mass': dict(leaf)})
+        G = ('growth', {'agents': {'*': sub(with_d)}},
+             {'agents': ('agents',)})
+        R = ('reporter', {'agents': {'*': sub(without)}},
+             {'agents': ('agents',)})
+        O = ('other', {'agents': {'*': {'extra': {'_default': 3,
+                                                 '_emit': True}}}},
+             {'agents': ('agents',)})
+        for order in itertools.permutations((G, R, O)):
+            for route in ('engine', 'store'):
+                names = tuple(p[0] for p in order)
+                case = {'special': 'glob-co-declarers', 'nested': nested,
+                        'order': names, 'route': route}
+                acc.case(key=('special', 'co-declarers', nested, names,
+                              route), outcome='special')
+                state = {'agents': {'a1': {}, 'a2': {'extra': 8}}}
+                try:
+                    tree = construct(list(order), (), state, route)
+                except Exception as e:  # noqa
+                    acc.violate(fw.violation(
+                        'C15.crash', f'co-declarers:{type(e).__name__}',
+                        f'construction raised {e!r}', case))
+                    continue
+                for child, extra in (('a1', 3), ('a2', 8)):
+                    node = tree['agents'].get(child, {})
+                    got = node.get('stats', {}).get('age') if nested \
+                        else node.get('mass')
+                    if got != 1.5 or node.get('extra') != extra:
+                        acc.violate(fw.violation(
+                            'C15.glob', 'co-declared-child-variable-lacks-'
+                            'declared-default',
+                            f'processes wired in order {names} ({route}): '
+                            f'agents/{child} = {node}; expected the '
+                            f'declared default 1.5 and extra={extra}',
+                            case))
+                        break
+    # (d)
+    for how in ('merge_overrides', 'schema_override', 'parameter'):
+        for route in ('engine', 'store', 'composite'):
+            case = {'special': 'rebuild', 'how': how, 'route': route}
+            acc.case(key=('special', 'rebuild', how, route),
+                     outcome='special')
+            proc = probes.Probe({'pid': 'proc', 'log_states': False,
+                                 'schema': {'port': {
+                                     'mass': {'_default': 1.0,
+                                              '_emit': True}}}})
+            processes = {'proc': proc}
+            topology = {'proc': {'port': ('cell',)}}
+
+            def build():
+                if route == 'engine':
+                    eng = Engine(processes=processes, topology=topology,
+                                 emitter={'type': 'null'},
+                                 display_info=False)
+                    return probes.pure(eng.state.get_value())
+                if route == 'composite':
+                    comp = Composite({'processes': processes,
+                                      'topology': topology})
+                    return probes.pure(comp.generate_store().get_value())
+                return probes.pure(generate_state(
+                    processes, topology, {}).get_value())
+            try:
+                first = build()['cell']['mass']
+                if how == 'merge_overrides':
+                    proc.merge_overrides({'port': {'mass': {
+                        '_default': 5.0}}})
+                elif how == 'schema_override':
+                    Composite({'processes': processes,
+                               'topology': topology}).merge(
+                        schema_override={'proc': {'port': {'mass': {
+                            '_default': 5.0}}}})
+                else:
+                    # a ports_schema() that depends on a parameter
+                    proc.parameters['schema']['port']['mass'][
+                        '_default'] = 5.0
+                declared = proc.get_schema()['port']['mass']['_default']
+                second = build()['cell']['mass']
+            except Exception as e:  # noqa
+                acc.violate(fw.violation(
+                    'C15.crash', f'rebuild:{type(e).__name__}',
+                    f'{how}/{route}: {e!r}', case))
+                continue
+            if first != 1.0 or declared != 5.0 or second != 5.0:
+                acc.violate(fw.violation(
+                    'C15.default', 'rebuilt-store-holds-stale-default',
+                    f'{how}/{route}: first build mass={first}; after the '
+                    f'change the process declares {declared}, the store '
+                    f'built again holds {second}', case))
+
+
 def run_job(job, acc):
     if job[0] == 'special':
         special_cases(acc)
+        special_cases_2(acc)
         return
     if job[0] == 'conflicts':
         conflict_cases(acc)
@@ -607,6 +709,7 @@ def replay(case):
     acc = fw.Acc()
     if 'special' in case:
         special_cases(acc)
+        special_cases_2(acc)
     elif 'conflict' in case:
         conflict_cases(acc)
     elif 'composite_state' in case:
